@@ -19,9 +19,13 @@ FAMILIES = {
     },
 }
 
+NOT_YET = {}
+
 PROPS = {
     "C04": {
         "families": [{"family": "c04"}],
+        "level_text": "Full proof on the model: for every list of clock readings, buckets, failed calls, closes, restarts and reopens the issued CAS values are strictly increasing process-wide and per bucket across restarts (C04_holds, by invariant over all operation lists; uint64 no-wrap side condition proved). The model is tied to hlc.go/collection.go by exact comparison of every CAS the implementation stamps under scripted clocks.",
+        "level_note": "Assumes the HLC mutex and bucket.mutex make each draw atomic, and SQLite commits bucket.lastCas atomically with the write; restart simulated in-process in this check (real kills under C10). Trusted: Coq kernel + vm_compute, the Go harness and emitter.",
         "assumptions": [
             "hlc.Now() is called inside the write transaction under bucket.mutex and the HLC mutex serialises draws (modelled as one atomic step per draw)",
             "bucket.lastCas is persisted in the same SQLite transaction as the document write (SQLite atomic commit assumed)",
